@@ -373,6 +373,13 @@ def taint_flow_check(ctx, items, builder, nexh, nsim, runs=None, prop_what="tain
         raise Inconclusive("MODEL-MISMATCH: GoSem and the native run disagree on %d programs, e.g. chain %s: "
                            "only in model %s, only natively %s" % (len(bad), p.meta.get("chain"), only_model, only_native))
     ctx.traces += sum(len(p.native) for p in nat)
+    if os.environ.get("VERIF_DUMP_MISSES"):
+        with open(os.environ["VERIF_DUMP_MISSES"], "w") as fh:
+            for m in misses:
+                fh.write(json.dumps({"chain": m["prog"].meta.get("chain"), "cfg": m["cfg"], "src": m["src"],
+                                     "sink": m["sink"], "dec": bits_of(m["dec"])}) + "\n")
+            for p_, why in absent:
+                fh.write(json.dumps({"chain": p_.meta.get("chain"), "absent": why[:3000]}) + "\n")
     bykey = {}
     illformed = [m for m in misses if m.get("illformed")]
     misses = [m for m in misses if not m.get("illformed")]
